@@ -1886,6 +1886,11 @@ func (sa *Application) decUserResourceUsage(resource *resources.Resource, remove
 
 // Track used and preempted resources
 func (sa *Application) trackCompletedResource(info *Allocation) {
+	// the trackers are cleaned up when the summary of a terminated application is logged: an allocation that is
+	// removed after that (application or partition removal) has nothing left to be added to
+	if sa.usedResource == nil || sa.placeholderResource == nil || sa.preemptedResource == nil {
+		return
+	}
 	switch {
 	case info.IsPreempted():
 		sa.updatePreemptedResource(info)
